@@ -124,6 +124,49 @@ def long_history(rng):
     return {'rx': [(r'.*', act)], 'tx': [(r'.*', None)], 'items': items}
 
 
+def _item(b, now, **kw):
+    it = {'b': b, 'data': A.enc_bundle(b), 'now': now, 'crc_ok': True}
+    it.update(kw)
+    return it
+
+
+def blocked_queue_history(rng):
+    ''' A forwarding attempt that fails (no transmit route for the destination at that moment) must not
+    stand in the way of later bundles: A fails; optionally a route for A's destination appears (what
+    peer_node_seen does); B to the same destination and C to a routed one follow. '''
+    flags = rng.choice([A.F_DEL | A.F_FWD | A.F_RCV, A.F_DEL, 0])
+    now = A.T0 + 10
+
+    def mk(dest, seq):
+        return {'pri': A.mk_pri(A.dtn(dest), rng.choice(SOURCES), [A.T0 - 9, seq], flags=flags, rpt=RPT,
+                        ct=rng.choice([0, 1, 2])), 'rpt_none': False,
+                'blocks': [A.mk_blk(1, 1, bytes([seq, 7]))]}
+    items = [_item(mk('//c/x', 40), now)]
+    late = rng.random() < 0.6
+    nxt = [('//c/x', 41), ('//a/x', 42), ('//c/y', 43)]
+    rng.shuffle(nxt)
+    for n, (dest, seq) in enumerate(nxt[:rng.choice([1, 2, 3])]):
+        kw = {'add_tx': [(r'dtn://c/.*', None)]} if (late and n == 0) else {}
+        items.append(_item(mk(dest, seq), now + 3 + n, **kw))
+    return {'rx': [(r'.*', 'forward')], 'tx': [(r'dtn://a/.*', None), (r'dtn://rpt/.*', None)], 'items': items}
+
+
+def acme_history(rng):
+    ''' A bundle for the node's own administrative endpoint carrying an ACME record nobody expects: the
+    administrative handler (receive chain order 30) records 'delete' on a bundle that still carries 'deliver'.
+    The bundle must be finished once: one report at most. Followed by an ordinary bundle. '''
+    request = rng.random() < 0.5
+    flags = A.F_ADMIN | (0x20 if request else 0) | rng.choice([A.F_DLV | A.F_DEL, A.F_DEL, A.F_DLV | A.F_DEL | A.F_RCV])
+    rec = A.enc([65536, {1: bytes(rng.randrange(256) for _ in range(4))}])
+    b = {'pri': A.mk_pri(A.NODE, rng.choice(SOURCES), [A.T0 - 9, 50], flags=flags, rpt=RPT, ct=rng.choice([0, 2])),
+         'rpt_none': False, 'blocks': [A.mk_blk(1, 1, rec)]}
+    b2 = {'pri': A.mk_pri(A.dtn('//a/x'), SOURCES[0], [A.T0 - 9, 51], flags=A.F_FWD, rpt=RPT), 'rpt_none': False,
+          'blocks': [A.mk_blk(1, 1, b'ok')]}
+    now = A.T0 + 10
+    return {'rx': [(r'dtn://a/.*', rng.choice(['forward', 'deliver']))], 'tx': [(r'.*', None)],
+            'items': [_item(b, now, params={'adm': 'delete'}), _item(b2, now + 2)]}
+
+
 def reasm_builder(items, ix):
     ''' structure of the bundle `Fragment._reassemble` re-injects: first fragment, flag cleared '''
     cur = items[ix]['b']['pri']
